@@ -391,7 +391,21 @@ func (e *enc) havocPerAssigns(fc *FuncContract, env *cenv) {
 	}
 	var pats []string
 	ghostWrites := map[string]bool{}
-	for _, a := range fc.Assigns {
+	assigns := fc.Assigns
+	if len(assigns) > 0 && strings.HasPrefix(assigns[0], "* except ") {
+		// everything but the listed arrays
+		exc := append([]string{strings.TrimPrefix(assigns[0], "* except ")}, assigns[1:]...)
+		e.havocHeap(func(arr string) bool {
+			for _, p := range exc {
+				if matchArr(strings.TrimSpace(p), arr) {
+					return true
+				}
+			}
+			return false
+		})
+		return
+	}
+	for _, a := range assigns {
 		switch {
 		case a == "nothing":
 		case a == "*":
@@ -471,6 +485,13 @@ func (e *enc) resultEnv(rets []string, retTypes []types.Type) *cenv {
 	}
 	env.st = e.heap
 	env.old = e.entry
+	env.loopEnvOf = func(n int) *cenv {
+		h := e.headerByOrdinal(n)
+		if h == nil {
+			return nil
+		}
+		return e.loopEnv(h, nil, e.heapIn[h])
+	}
 	return env
 }
 
